@@ -16,7 +16,9 @@ from txtorcon import socks                             # noqa: E402
 
 
 SELECT = {"ok": [b"\x05\x00"], "split": [b"\x05", b"\x00"], "m2": [b"\x05\x02"], "m2split": [b"\x05", b"\x02"],
-          "none": [b"\x05\xff"], "badver": [b"\x04\x00"], "m1": [b"\x05\x01"]}
+          "none": [b"\x05\xff"], "badver": [b"\x04\x00"], "m1": [b"\x05\x01"],
+          # a refusal, and then - before the connection is gone - two bytes that look like a selection of 'no authentication'
+          "none_ok": [b"\x05\xff", b"\x05\x00"], "badver_ok": [b"\x04\x00", b"\x05\x00"], "m1_ok": [b"\x05\x01", b"\x05\x00"]}
 
 
 class SyncReplyTransport(sk.proto_helpers.StringTransport):
